@@ -156,6 +156,28 @@ def num_events(ctx, ty, dtype, per_cell):
                 allow = int(min(mp.ceil(4 * R.ad_norm6(ty, xi_log) / 30240 * max(abs(v) for v in ref + [mp.mpf(1)])
                                         / max(max(abs(v) for v in ref), mp.mpf(1e-300)) / eps), R.CAP))
             add("jinvp", R.vec_err(jinvp.tensor()[i].tolist(), ref, eps, floor=mp.mpf(1e-300)), fin(jinvp[i]), allow)
+    # Jinvp of poses with a tiny but non-zero rotation and a sizeable translation, along directions with every component
+    # (the coefficient that couples translation and rotation is a small-angle series / closed form switch in the code):
+    # a fixed sweep, so that the detection does not hang on which random cells a seed happens to draw
+    if ty in ("SE3", "Sim3"):
+        sweep = [1e-14, 1e-12, 1e-10, 1e-8, 1e-6, 1e-5, 1e-4, 1e-3] if dt == "f64" else [1e-6, 1e-5, 1e-4, 1e-3, 1e-2, 5e-2]
+        rows_s = []
+        for r in sweep:
+            for _ in range(2 if ctx.quick else 6):
+                rows_s.append((r, alg_cell(rng, ty, r, 5.0, 0.0)))
+        Xs = L.mkalg(ty, [row for _, row in rows_s], dtype).Exp()
+        Ps = L.mkalg(ty, [rand_dir(rng, L.ADIM[ty]) for _ in rows_s], dtype)
+        Js = Xs.Jinvp(Ps)
+        for i, (r, _) in enumerate(rows_s):
+            xi, pi = Xs.tensor()[i].tolist(), Ps.tensor()[i].tolist()
+            ref = R.jlinv_fd(ty, xi, pi)
+            allow = 0
+            if ty == "Sim3":
+                xi_log = R.log_ref(ty, R.mat_of(ty, xi))
+                allow = int(min(mp.ceil(4 * R.ad_norm6(ty, xi_log) / 30240 * max(abs(v) for v in ref + [mp.mpf(1)])
+                                        / max(max(abs(v) for v in ref), mp.mpf(1e-300)) / eps), R.CAP))
+            ev.append({"chk": "jinvp", "ty": ty, "dt": dt, "err": int(R.vec_err(Js.tensor()[i].tolist(), ref, eps, floor=mp.mpf(1e-300))),
+                       "finite": fin(Js[i]), "allow": allow, "cell": {"ty": ty, "x": [r, 5.0, 0.0], "a": ["sweep"]}, "x": xi, "a": pi})
     # Jinvp at moderate |Log X| with all blocks of comparable size: the documented Sim3 truncation allowance
     # (|ad xi|^6 / 30240) is small there, so a wrong series coefficient is visible
     mids = [0.05, 0.1, 0.3, 0.6, 1.0]
